@@ -9,9 +9,9 @@ import (
 
 func lexN() int {
 	if verifrt.Thorough() {
-		return 4
+		return 3
 	}
-	return 3
+	return 2
 }
 
 // validRune: the runes []rune(s) can contain for any string s.
@@ -130,4 +130,183 @@ func HarnessC03LexerPublicAPI() {
 		}
 	}
 	verifrt.Fail("lexer-makes-progress")
+}
+
+// ---- C20-2: layout at token gaps never changes the token stream ----
+
+type lexed struct {
+	kinds  []token.Type
+	lits   []string
+	starts []int
+	ends   []int
+	ok     bool
+}
+
+func lexAll(rs []rune, check bool) lexed {
+	var out lexed
+	l := newFromRunes(rs)
+	for i := 0; i < len(rs)+2; i++ {
+		tok, err := l.Next()
+		if err != nil {
+			return out
+		}
+		if check {
+			checkToken(l, rs, tok)
+		}
+		out.kinds = append(out.kinds, tok.Type)
+		out.lits = append(out.lits, tok.Literal)
+		out.starts = append(out.starts, tok.StartPosition.Char)
+		out.ends = append(out.ends, tok.EndPosition.Char)
+		if tok.Type == token.EOF {
+			out.ok = true
+			return out
+		}
+	}
+	return out
+}
+
+var c20Fillers = []string{" ", "\t", "  ", "/**/", "/*x*/", "/* * / */", " /**/ ", "/**//**/", "/*a*/ /*b*/", "/*\n*/"}
+
+func insertRunes(rs []rune, at int, filler string) []rune {
+	out := make([]rune, 0, len(rs)+len(filler))
+	out = append(out, rs[:at]...)
+	out = append(out, []rune(filler)...)
+	return append(out, rs[at:]...)
+}
+
+func sameTokens(a, b lexed) bool {
+	if !b.ok || len(a.kinds) != len(b.kinds) {
+		return false
+	}
+	same := true
+	for i := range a.kinds {
+		if a.kinds[i] != b.kinds[i] {
+			return false
+		}
+		same = verifrt.And(same, verifrt.EqString(a.lits[i], b.lits[i]))
+	}
+	return same
+}
+
+// HarnessC20LexLayoutGaps: blanks and block comments inserted at any token
+// start leave token kinds and literals unchanged, and the re-laid-out text
+// still satisfies the position invariants.
+func HarnessC20LexLayoutGaps() {
+	maxN := 2
+	if verifrt.Thorough() {
+		maxN = 3
+	}
+	n := verifrt.Choose(maxN + 1)
+	rs := symRunes(n)
+	orig := lexAll(rs, false)
+	if !orig.ok {
+		verifrt.Reach("opt:original-rejected")
+		return
+	}
+	gi := verifrt.Choose(len(orig.starts))
+	g := orig.starts[gi]
+	if g > n {
+		g = n
+	}
+	filler := c20Fillers[verifrt.Choose(len(c20Fillers))]
+	if filler[0] == '/' && g > 0 && rs[g-1] == '/' {
+		// "/" followed by "/*" would read as a line comment: not a layout change
+		return
+	}
+	{
+		// the filler must land between tokens, not inside a comment of the
+		// original text: require only blanks between the previous token and the gap
+		from := 0
+		if gi > 0 {
+			from = orig.ends[gi-1] + 1
+		}
+		for i := from; i < g && i < n; i++ {
+			if rs[i] != ' ' && rs[i] != '\t' {
+				return
+			}
+		}
+	}
+	mod := insertRunes(rs, g, filler)
+	again := lexAll(mod, true)
+	verifrt.Reach("compared")
+	verifrt.Assert(sameTokens(orig, again), "filler-at-token-gap-keeps-tokens")
+}
+
+// HarnessC20LexLineComments: a line comment before a newline / at the end,
+// a blank line, and CRLF instead of LF keep the token kinds.
+func HarnessC20LexLineComments() {
+	maxN := 2
+	if verifrt.Thorough() {
+		maxN = 3
+	}
+	n := verifrt.Choose(maxN + 1)
+	rs := symRunes(n)
+	orig := lexAll(rs, false)
+	if !orig.ok {
+		verifrt.Reach("opt:original-rejected")
+		return
+	}
+	switch verifrt.Choose(3) {
+	case 0: // comment appended at the end of a line (before a NEWLINE token or EOF)
+		k := verifrt.Choose(len(orig.kinds))
+		if orig.kinds[k] != token.NEWLINE && orig.kinds[k] != token.EOF {
+			return
+		}
+		// a lone CR is outside the claim (the statement speaks of LF and CRLF)
+		if orig.kinds[k] == token.NEWLINE && orig.lits[k] == "\r" {
+			return
+		}
+		g := orig.starts[k]
+		if g > n {
+			g = n
+		}
+		// the comment is separated from the preceding token by a blank
+		cm := []string{" # c", " // c", " #", " //"}[verifrt.Choose(4)]
+		again := lexAll(insertRunes(rs, g, cm), true)
+		verifrt.Reach("line-comment")
+		ok := again.ok && len(again.kinds) == len(orig.kinds)
+		if ok {
+			for i := range orig.kinds {
+				if orig.kinds[i] != again.kinds[i] {
+					ok = false
+				} else if orig.kinds[i] != token.NEWLINE {
+					ok = verifrt.And(ok, verifrt.EqString(orig.lits[i], again.lits[i]))
+				}
+			}
+		}
+		verifrt.Assert(ok, "line-comment-keeps-tokens")
+	case 1: // CRLF for LF: same kinds (NEWLINE literals differ)
+		for _, k := range orig.kinds {
+			// newlines inside string tokens are data, not layout
+			if k == token.STRING || k == token.FSTRING || k == token.BACKTICK {
+				return
+			}
+		}
+		var mod []rune
+		for _, r := range rs {
+			if r == '\r' {
+				return // text that already contains CR is outside the LF -> CRLF claim
+			}
+			if r == '\n' {
+				mod = append(mod, '\r', '\n')
+			} else {
+				mod = append(mod, r)
+			}
+		}
+		again := lexAll(mod, true)
+		verifrt.Reach("crlf")
+		ok := again.ok && len(again.kinds) == len(orig.kinds)
+		if ok {
+			for i := range orig.kinds {
+				if orig.kinds[i] != again.kinds[i] {
+					ok = false
+				}
+			}
+		}
+		verifrt.Assert(ok, "crlf-keeps-token-kinds")
+	case 2: // leading blanks before the first token
+		again := lexAll(insertRunes(rs, 0, " \t"), true)
+		verifrt.Reach("leading-blanks")
+		verifrt.Assert(sameTokens(orig, again), "leading-blanks-keep-tokens")
+	}
 }
